@@ -276,7 +276,10 @@ def power(p, e):
     if c < 0:
         if n is not None:
             return mul(const(c**n), atom_poly(("sum", key(prim)), e))
-        raise NFError("negative content under a non-integer exponent")
+        # non-integer power of a sum whose leading coefficient is negative: factor out |c| only and keep
+        # the sign inside the atom (the sum may still be positive; no claim about its sign is made)
+        prim = scale(p, 1 / (-c))
+        return mul(power(const(-c), e), atom_poly(("sum", key(prim)), e))
     return mul(power(const(c), e), atom_poly(("sum", key(prim)), e))
 
 
